@@ -39,22 +39,34 @@ def build(desc, seed=0, via=None, **ctor_kw):
         kw['normalize_kv'] = False
     obj = {1: mod.Curve, 2: mod.Surface, 3: mod.Volume}[pd](**kw)
     pts, w, pw = net_points(desc, seed)
-    P = pw if desc['rational'] else pts
+    P = copy.deepcopy(pw if desc['rational'] else pts)
+    kv_args = [list(kv) for kv in desc['kvs']]
     if pd == 1:
         obj.degree = desc['degrees'][0]
-        obj.set_ctrlpts(copy.deepcopy(P))
-        obj.knotvector = list(desc['kvs'][0])
+        obj.set_ctrlpts(P)
+        obj.knotvector = kv_args[0]
     elif pd == 2:
         obj.degree_u, obj.degree_v = desc['degrees']
-        obj.set_ctrlpts(copy.deepcopy(P), *desc['sizes'])
-        obj.knotvector_u = list(desc['kvs'][0])
-        obj.knotvector_v = list(desc['kvs'][1])
+        obj.set_ctrlpts(P, *desc['sizes'])
+        obj.knotvector_u = kv_args[0]
+        obj.knotvector_v = kv_args[1]
     else:
         obj.degree_u, obj.degree_v, obj.degree_w = desc['degrees']
-        obj.set_ctrlpts(copy.deepcopy(P), *desc['sizes'])
-        obj.knotvector_u = list(desc['kvs'][0])
-        obj.knotvector_v = list(desc['kvs'][1])
-        obj.knotvector_w = list(desc['kvs'][2])
+        obj.set_ctrlpts(P, *desc['sizes'])
+        obj.knotvector_u = kv_args[0]
+        obj.knotvector_v = kv_args[1]
+        obj.knotvector_w = kv_args[2]
+    # The caller owns the lists it passed in: overwrite them now.  A shape that kept a reference to an argument instead of
+    # its own copy is then visibly broken in every check that uses this builder.  (With normalize_kv=False the knot vector
+    # setters are documented to store the given list, so those lists are left alone.)
+    for p in P:
+        for j in range(len(p)):
+            p[j] = -123.25 - j
+    del P[len(P) // 2:]
+    if desc.get('normalize_kv', True) and 'normalize_kv' not in ctor_kw:
+        for kv in kv_args:
+            for j in range(len(kv)):
+                kv[j] = 0.5
     return obj
 
 
